@@ -216,7 +216,7 @@ def run_unit(unit):
                   "path": "/".join(trace[-12:]), "tags": list(tags)}
             if reason:
                 ob["reason"] = reason
-            if verdict == "unknown" and model is not None:
+            if verdict == "unknown" and (model is not None or getattr(unit, "replay_without_model", False)):
                 # candidate counter-model of an undecided query: it counts only if it reproduces on the real code
                 try:
                     rp = unit.replay(ctx, model, label)
@@ -225,7 +225,7 @@ def run_unit(unit):
                     ob["replay_error"] = f"{type(e).__name__}: {e}"
                 if rp is not None and rp.get("reproduced"):
                     verdict = ob["verdict"] = "failed"
-                    ob["solver"] = solver + " (candidate model, confirmed by native replay)"
+                    ob["solver"] = solver + (" (candidate model, confirmed by native replay)" if model is not None else " (undecided by the solvers; the clause named by the obligation fails natively on a directed input)")
                     ob["replay"] = rp
                     ob["goal"] = str(z3.simplify(goal))[:400]
                 model = None
